@@ -218,6 +218,9 @@ def run_model(lines: list[str], timeout: int = 600) -> list[str]:
         raise RuntimeError(
             f"modelrun failed rc={p.returncode} lines_in={len(lines)} lines_out={len(out)} stderr={p.stderr.decode()[:500]}"
         )
+    from harness import coqeval
+
+    coqeval.observe(lines, out)      # sample for the extraction cross-check (second evaluation inside Coq)
     return out
 
 
